@@ -138,7 +138,8 @@ def handle (op : String) (j : Json) : Except String Json := do
   | "c06.dom_doc" =>
     let d ← docOfJson (← field j "doc")
     .ok (okJson (obj [("keysounds_declared", Json.bool (Spec.keySoundsDeclared d)),
-                      ("lanes_declared", Json.bool (Spec.lanesDeclared d))]))
+                      ("lanes_declared", Json.bool (Spec.lanesDeclared d)),
+                      ("objs_declared", Json.bool (Spec.objsDeclared d))]))
   | "c06.dom_chart" =>
     let c ← chartOfJson (← field j "chart")
     .ok (okJson (obj [("ks_lists", Json.bool (Spec.ksLists c)), ("meta_typed", Json.bool (Spec.metaTyped c.info)),
